@@ -27,6 +27,8 @@ class Scripted:
             self.log.append(("int", a, b, None))
             raise ValueError(f"empty range in randrange({a}, {b + 1})")
         v = self.policy("int", a, b, len(self.log))
+        if isinstance(v, bool):
+            v = int(v)      # random.randint(True, n) returns an int, never the bound object itself
         self.log.append(("int", a, b, v))
         return v
 
@@ -118,8 +120,9 @@ def draws_of(log, I):
     for e in log:
         if e[0] == "int":
             if e[3] is not None:
-                draws.append(["ri", e[3]])
-                reqs.append(["randint", e[1], e[2]])
+                # bool bounds (schema.int.min(True)) are ints to `random.randint`, which never returns a bool
+                draws.append(["ri", int(e[3])])
+                reqs.append(["randint", int(e[1]), int(e[2])])
         elif e[0] == "uniform":
             draws.append(["rf", encode.enc_float(float(e[3]))])
             reqs.append(["uniform", encode.enc_float(float(e[1])), encode.enc_float(float(e[2]))])
@@ -172,6 +175,15 @@ def make_policy(name, rnd):
                 return seq.index(target)
             return (len(seq) - 1) if name == "cmax" else 0
         pol.choose = choose
+        return pol
+    if name.startswith("idx:"):
+        # every choice picks candidate number k (mod the number of candidates): sweeping k visits EVERY outcome of every
+        # choice draw (each character of an alphabet, each alternative); numeric draws take the low end
+        k = int(name[4:])
+
+        def pol(kind, a, b, n):
+            return a
+        pol.choose = lambda seq, n: k % len(seq)
         return pol
     if name.startswith("one:"):
         # all-low except request number k which takes the high extreme
